@@ -244,7 +244,13 @@ public:
     return local_iterator(&heads, galois::substrate::ThreadPool::getTID());
   }
   local_iterator local_end() {
-    return local_iterator(&heads, galois::substrate::ThreadPool::getTID() + 1);
+    unsigned tid = galois::substrate::ThreadPool::getTID();
+    // The last active thread also covers the lists of threads that are not
+    // active now: they hold elements if the bag was filled while more threads
+    // were active, and no other thread's local range would visit them.
+    if (tid + 1 >= galois::getActiveThreads())
+      return end();
+    return local_iterator(&heads, tid + 1);
   }
 
   bool empty() const {
